@@ -28,6 +28,10 @@ pub struct Spec {
     routing: bool,
     /// claimed identity shape: ascii | unicode | nil-uuid
     claim: String,
+    /// plain | one-byte (transport delivers and accepts one byte at a time) | slow-auth (the
+    /// authentication service takes 17 s, a keep-alive tick passes meanwhile) | slow-routing
+    #[serde(default)]
+    transport: String,
 }
 
 fn claim_of(s: &Spec) -> (String, u128) {
@@ -91,7 +95,19 @@ fn build(s: &Spec, stale: &[u8]) -> Case {
     case.script = login.steps();
     case.adapters.auth = verdict_of(s);
     case.adapters.disc = DiscPlan::Targets(if s.routing { vec![TargetSpec::new("t1", "10.1.2.3:25565")] } else { vec![] });
-    case.horizon_ms = 60_000;
+    match s.transport.as_str() {
+        "one-byte" => {
+            case.transport.read_chunk = Some(1);
+            case.transport.write_chunk = Some(1);
+        }
+        "slow-auth" => case.adapters.auth_ms = 17_000,
+        "slow-routing" => {
+            case.adapters.disc_ms = 17_000;
+            case.adapters.strat_ms = 17_000;
+        }
+        _ => {}
+    }
+    case.horizon_ms = 120_000;
     case
 }
 
@@ -239,7 +255,9 @@ fn specs(thorough: bool) -> Vec<Spec> {
             for verdict in verdicts {
                 for routing in [true, false] {
                     for claim in &claims {
-                        out.push(Spec { intent: intent.into(), enc: enc.clone(), verdict: verdict.into(), routing, claim: claim.to_string() });
+                        for transport in if thorough { vec!["plain", "one-byte", "slow-auth", "slow-routing"] } else { vec!["plain"] } {
+                            out.push(Spec { intent: intent.into(), enc: enc.clone(), verdict: verdict.into(), routing, claim: claim.to_string(), transport: transport.into() });
+                        }
                     }
                 }
             }
@@ -317,10 +335,10 @@ pub fn run(cli: Cli) -> ! {
     rep.set("admitted", json!(admitted.load(Ordering::Relaxed)));
     rep.set("refused", json!(refused.load(Ordering::Relaxed)));
     rep.set("exhaustive", json!(true));
-    rep.set("rule", json!("full product intent(5) x encryption response(21) x authentication verdict(7) x routing(2) [x claimed identity shape(3) in thorough]; one connection per element plus one prior connection that supplies the stale token; a state is the script reaching it"));
+    rep.set("rule", json!("full product intent(5) x encryption response(21) x authentication verdict(7) x routing(2) [x claimed identity shape(3) x transport/latency variant(4) in thorough]; one connection per element plus one prior connection that supplies the stale token; a state is the script reaching it"));
     rep.sample(json!({"spec": all[0]}));
-    rep.sample(json!({"spec": Spec { intent: "transfer-cookie".into(), enc: "honest".into(), verdict: "err".into(), routing: true, claim: "ascii".into() }, "expect": "admitted as the cookie's identity, service not called"}));
-    rep.sample(json!({"spec": Spec { intent: "login".into(), enc: "token-prefix-1".into(), verdict: "claim".into(), routing: true, claim: "ascii".into() }, "expect": "nothing granted"}));
+    rep.sample(json!({"spec": Spec { intent: "transfer-cookie".into(), enc: "honest".into(), verdict: "err".into(), routing: true, claim: "ascii".into(), transport: "plain".into() }, "expect": "admitted as the cookie's identity, service not called"}));
+    rep.sample(json!({"spec": Spec { intent: "login".into(), enc: "token-prefix-1".into(), verdict: "claim".into(), routing: true, claim: "ascii".into(), transport: "plain".into() }, "expect": "nothing granted"}));
     rep.assume("RSA, AES, HMAC crates are trusted primitives (the client side uses the rsa crate to encrypt; CFB8 and HMAC are re-implemented)");
     rep.assume("'every client byte stream' is covered as every script over the stated alphabet; arbitrary byte noise is C04's subject");
     rep.finish()
